@@ -54,6 +54,10 @@ def verify_A(mod, tier, seed=0):
     """Run an Engine-A harness module.  Returns a result dict (see finish())."""
     pid = mod.PID
     t0 = time.time()
+    if not os.environ.get("VF_DEADLINE_TS"):
+        # safety net: partitions that have not started when the tier's budget is used up are
+        # skipped and reported as not explored (the per-partition CrossHair timeout bounds the rest)
+        os.environ["VF_DEADLINE_TS"] = str(t0 + float(os.environ.get("VF_BUDGET_S", "1200" if tier == "quick" else "2400")))
     plan = mod.plan(tier)
     only = [x for x in os.environ.get("VF_ONLY", "").split(",") if x]
     if only:  # experiments only: restrict to some harness functions
@@ -113,6 +117,9 @@ def absorb_A(res, mod, jobs, results):
                 res["harness_errors"].append(f"vacuity twin of {job.fn} was not refuted (states {states}): the harness never reaches its assertion")
             continue
         res["partitions"] += 1
+        if r.get("skipped"):
+            res["inconclusive"].append(f"{job.label}: not explored, the time budget of the {job.tier} tier was used up before it could start")
+            continue
         res["paths"] += r["num_paths"]
         res["queries"] += r["queries"]
         res["solver_s"] += r["solver_s"]
